@@ -108,7 +108,7 @@ func runVariant(self, repo, verif string, e corpusEntry, props []string) []corpu
 	if out, err := exec.Command("rsync", "-a", "--exclude", ".git", repo+"/", dir+"/").CombinedOutput(); err != nil {
 		return all("inapplicable", "copy failed: "+string(out))
 	}
-	p := exec.Command("patch", "-p1", "-s", "--no-backup-if-mismatch", "-i", filepath.Join(e.Dir, "patch.diff"))
+	p := exec.Command("patch", "-p1", "-s", "--no-backup-if-mismatch", "-E", "-i", filepath.Join(e.Dir, "patch.diff"))
 	p.Dir = dir
 	if out, err := p.CombinedOutput(); err != nil {
 		return all("inapplicable", "patch does not apply: "+firstLine(string(out)))
